@@ -2,6 +2,7 @@
    Statements quantify over every reader / writer / handler, every L, S (small_body_len) and M as
    unbounded naturals, with the 2^64 side conditions explicit. *)
 From SV Require Import Base.Bytes Base.IO Model.Conn Spec.ConnSpec Proofs.ConnP Model.Server Proofs.ServerP.
+From SV Require Import Base.SrcAst Generated.SourceParams Tie.ServerTie.
 
 Section C09.
 Variable payload : Type.
@@ -92,6 +93,12 @@ Theorem c09_memory_bound :
   forall c p b a,
     In (mk_inv _ _ p (BV_Mem b) a) (oo_log _ _ (once c)) -> N.of_nat (length b) <= small_body_len.
 Proof. intros. eapply memory_bound; eauto. Qed.
+(* C09.src  handle_http_conn_once (src/http_conn.rs) as TRANSLATED statement by statement ON THIS RUN
+   (props/srcparams.py -> Generated/SourceParams.v: src_once), interpreted by Tie/ServerTie.v over the connection
+   machine, IS the function the theorems above are about -- for every reader, writer, handler, connection state. *)
+Theorem c09_handle_once_is_the_source :
+  forall c, eval_once payload resp read_req resp_code write_out resp_continue fix16 handler small_body_len cache_dir src_once c = once c.
+Proof. intros. apply handle_once_tie. Qed.
 End C09.
 
 (* the code before the repairs of D7 and D5 *)
@@ -108,6 +115,9 @@ Example c09_nonvacuous :
   fst (copy_unknown (sat_succ u64_max) u64_max (mk_cin [1;2;3] (mk_in [4;5] [] false))) = BR_File [1;2;3;4;5].
 Proof. exact d7_fixed. Qed.
 
+Theorem c09_server_translation_complete : src_problems_conn_loop = 0%nat.
+Proof. exact conn_loop_translated. Qed.
+
 Print Assumptions c09_small_body_in_memory.
 Print Assumptions c09_large_asks_first.
 Print Assumptions c09_over_limit_refused_single_run.
@@ -118,3 +128,5 @@ Print Assumptions c09_disk_bound.
 Print Assumptions c09_memory_bound.
 Print Assumptions c09_max_limit_overflow_refuted.
 Print Assumptions c09_413_second_run_refuted.
+Print Assumptions c09_handle_once_is_the_source.
+Print Assumptions c09_server_translation_complete.
